@@ -126,8 +126,8 @@ fn families(a: &Args) -> Vec<Family> {
         wlist_family("wlists4", false, WListFam { n: 4, m: 3, directed: false, loops: true, k: if t { 3 } else { 2 } }, 1),
         wsimple_family("wsimple4", false, WSimpleFam { n: 4, directed: false, loops: false, k: 3, max_edges: None }, 1),
         wsimple_family("wsimple4-loops", false, WSimpleFam { n: 4, directed: false, loops: true, k: 2, max_edges: None }, 0),
-        wlist_family("wlists4-m4", true, WListFam { n: 4, m: 4, directed: false, loops: true, k: 3 }, 0),
-        wsimple_family("wsimple5", true, WSimpleFam { n: 5, directed: false, loops: false, k: 2, max_edges: None }, 1),
+        wlist_family("wlists4-m4", false, WListFam { n: 4, m: 4, directed: false, loops: true, k: if t { 3 } else { 2 } }, 0),
+        wsimple_family("wsimple5", false, WSimpleFam { n: 5, directed: false, loops: false, k: 2, max_edges: None }, 1),
         wsimple_family("wsimple5-3weights", true, WSimpleFam { n: 5, directed: false, loops: false, k: 3, max_edges: None }, 0),
         wsimple_family("wsimple6-unweighted", true, WSimpleFam { n: 6, directed: false, loops: false, k: 1, max_edges: None }, 1),
         wsimple_family("wsimple6-2weights-le7edges", true, WSimpleFam { n: 6, directed: false, loops: false, k: 2, max_edges: Some(7) }, 0),
